@@ -6,6 +6,8 @@ import HG.Model.Cache
 import HG.Model.Sem
 import HG.Model.Events
 import HG.Model.Viz
+import HG.Model.Build
+import HG.Model.Heap
 /-! Line protocol driver: one JSON request per line on stdin, one JSON response per line on stdout.
 Evaluates the model's own definitions; malformed requests yield `{"bad": reason}` (never a default). -/
 open Lean HG Driver
@@ -178,6 +180,100 @@ def handle (j : Json) : P Json := do
       ("results", .arr (checks.map fun (st, sep, d) => Json.mkObj [
         ("ok", .bool (Viz.checkFaithful f st sep d)),
         ("explain", .arr ((Viz.explain f st sep d).map Json.str).toArray)]).toArray)])
+  | "build" =>
+    -- constructor validation of graph `gi` of a program (flaw-injection correspondence)
+    let specsJ ← arr (← field j "program")
+    let specs ← specsJ.toList.mapM graphSpec
+    let prog := elabProgram specs
+    let gi ← nat (fieldD j "gi" (.num (JsonNumber.fromNat (prog.length - 1))))
+    let g := prog.getD gi default
+    let gj := specsJ.toList.getD gi (Json.mkObj [])
+    let strict ← bool (fieldD gj "strict" (.bool false))
+    let edges : Option (List (HG.Name × HG.Name × Option (List HG.Name))) ← (match fieldD gj "edges" .null with
+      | .null => pure none
+      | es => do
+        let l ← list (fun e => do
+          let a ← arr e
+          match a.toList with
+          | [x, y] => pure ((← str x), (← str y), (none : Option (List HG.Name)))
+          | [x, y, vs] => pure ((← str x), (← str y), some (← list str vs))
+          | _ => throw "bad edge") es
+        pure (some l))
+    let nodesJ ← arr (← field gj "nodes")
+    let mut inT : AL (AL TypeCompat.Ty) := []
+    let mut outT : AL (AL TypeCompat.Ty) := []
+    for nj in nodesJ.toList do
+      let nm ← str (← field nj "name")
+      match nj.getObjVal? "ann" with
+      | .error _ => pure ()
+      | .ok ann =>
+        let ren ← pairs str (fieldD nj "inRen" (.arr #[]))
+        let ps ← list param (fieldD nj "params" (.arr #[]))
+        let mut ins : AL TypeCompat.Ty := []
+        for p in ps do
+          match ann.getObjVal? p.1 with
+          | .ok t => ins := ins ++ [((AL.get? ren p.1).getD p.1, ← tyOfJson t)]
+          | .error _ => pure ()
+        inT := inT ++ [(nm, ins)]
+        match ann.getObjVal? "return" with
+        | .ok t =>
+          let outs ← list str (fieldD nj "dataOuts" (.arr #[]))
+          let ty ← tyOfJson t
+          outT := outT ++ [(nm, outs.map fun o => (o, ty))]
+        | .error _ => pure ()
+    let inner := g.nodes.filter fun n => n.kind == .graph && ((prog.getD n.inner default).nodes.any (·.isInterrupt))
+    let b : Build.BuildInput := { nodes := g.nodes, graphName := g.name, strict := strict, explicitEdges := edges,
+                                  inTypes := inT, outTypes := outT, innerInterrupts := inner.map (·.name) }
+    pure (Json.mkObj [("class", .str (Build.classify b))])
+  | "heap" =>
+    -- derivation-operation histories on the heap model: observation of every object after each op
+    let nodes ← list (fun o => do
+      pure ((← str (← field o "name")), (← list str (← field o "inputs")), (← list str (← field o "outputs")))) (← field j "nodes")
+    let ops ← list (fun o => do
+      let t ← str (← field o "t")
+      let i ← nat (← field o "i")
+      let prs (x : Json) : P (List (HG.Name × HG.Name)) := list (fun q => do
+        let a ← arr q
+        match a.toList with
+        | [u, v] => pure ((← str u), (← str v))
+        | _ => throw "bad pair") x
+      match t with
+      | "bind" => pure (Heap.OpSpec.bind i (← str (← field o "k")) (← val (← field o "v")))
+      | "unbind" => pure (Heap.OpSpec.unbind i (← str (← field o "k")))
+      | "select" => pure (Heap.OpSpec.select i (← list str (← field o "names")))
+      | "withEntrypoint" => pure (Heap.OpSpec.withEntrypoint i (← list str (← field o "names")))
+      | "asNode" => pure (Heap.OpSpec.asNode i (← str (← field o "name")))
+      | "withName" => pure (Heap.OpSpec.withName i (← str (← field o "name")))
+      | "withInputs" => pure (Heap.OpSpec.withInputs i (← prs (← field o "pairs")))
+      | "withOutputs" => pure (Heap.OpSpec.withOutputs i (← prs (← field o "pairs")))
+      | "mapOver" => pure (Heap.OpSpec.mapOver i (← list str (← field o "names")))
+      | "readInputs" => pure (Heap.OpSpec.readInputs i)
+      | "readHash" => pure (Heap.OpSpec.readHash i)
+      | "addNode" => pure (Heap.OpSpec.addNode i (← nat (← field o "j")))
+      | s => throw s!"bad heap op {s}") (← field j "ops")
+    let rec encObs : Heap.Obs → Json
+      | .bad => .str "BAD"
+      | .none => .null
+      | .nil => .arr #[]
+      | .cons h t => match encObs t with
+        | .arr a => .arr (#[encObs h] ++ a)
+        | x => .arr #[encObs h, x]
+      | .dict m => Json.mkObj [("dict", encAL encVal m)]
+      | .hist l => Json.mkObj [("hist", .arr (l.map fun h => Json.arr #[.str h.kind, .str h.old, .str h.new]).toArray)]
+      | .names l => encNames l
+      | .graph ns b sel ent => Json.mkObj [("graph", encObs ns), ("bound", encObs b),
+          ("selected", match sel with | some l => encNames l | none => .null), ("entry", match ent with | some l => encNames l | none => .null)]
+      | .node nm ins outs hist mo _ inner => Json.mkObj [("node", .str nm), ("inputs", encNames ins), ("outputs", encNames outs),
+          ("history", encObs hist), ("mapOver", encObs mo), ("inner", encObs inner)]
+    let rows := Heap.replay nodes ops
+    pure (Json.mkObj [("init", .arr ((Heap.replayInit nodes).map encObs).toArray),
+                      ("rows", .arr (rows.map fun r => Json.arr (r.map encObs).toArray).toArray)])
+  | "iso" =>
+    let kind ← (do match (← str (← field j "kind")) with
+      | "default" => pure Iso.ArgKind.default | "bound" => pure .bound | "providedSame" => pure .providedSame
+      | "providedFresh" => pure .providedFresh | s => throw s!"bad kind {s}")
+    let n ← nat (← field j "n")
+    pure (Json.mkObj [("lens", .arr ((Iso.runSeq kind n).map fun k => Json.num (JsonNumber.fromNat k)).toArray)])
   | "rename" =>
     -- rename bookkeeping: original names, optional constructor batch, successive call batches
     let orig ← list str (← field j "orig")
